@@ -10,6 +10,14 @@
 (*     and falls back to F; its own composable members exist iff F is      *)
 (*     composable;                                                         *)
 (*   - a leaf recognises exactly its own memory in try_deallocate_*.       *)
+(*   - binary_segregator<threshold_segregatable<S>, F> (segregator.hpp)    *)
+(*     routes by the request alone: a node of size <= threshold, an array  *)
+(*     of count*size <= threshold goes to S, everything else to F, through *)
+(*     the THROWING traits interface (a full S throws, F is not asked);    *)
+(*     releases are routed by the same predicate on the release's          *)
+(*     parameters; a segregator has no composable members.                 *)
+(*     SegByTotal = TRUE is the code; FALSE routes array RELEASES by the   *)
+(*     element size alone (seeded design defect, regression witness).      *)
 (* What reaches a leaf on release must be what it was asked for on         *)
 (* allocation (C08 / C09): same leaf, same kind, same count and size.      *)
 (* FbHasTryAllocArray = TRUE is the code as repaired; FALSE the original,  *)
@@ -21,16 +29,26 @@ EXTENDS Naturals, Sequences, FiniteSets, TLC
 CONSTANTS Tree,               \* which composition: 1 = fb(L1,L2), 2 = fb(fb(L1,L2),L3), 3 = fb(L1,fb(L2,L3))
           Cap,                \* Cap[l]: bytes leaf l can hold (3 entries)
           HasArray,           \* HasArray[l]: leaf l has array member functions
-          FbHasTryAllocArray, MaxLive
+          FbHasTryAllocArray, MaxLive,
+          SegByTotal          \* array releases of a segregator are routed by count*size (the code) / by size (defect)
 Leaves == 1..3
-Sizes == {1, 2}
+\* segregator trees get a size that crosses the second threshold of seg3 (3*5 = 15 units > 8)
+Sizes == IF Tree >= 4 THEN {1, 2, 5} ELSE {1, 2}
 Counts == {1, 2, 3}
 
-Leaf(l) == [t |-> "leaf", l |-> l, d |-> 0, f |-> 0]
+Leaf(l) == [t |-> "leaf", l |-> l, d |-> 0, f |-> 0, th |-> 0]
+Fb(d, f) == [t |-> "fb", l |-> 0, d |-> d, f |-> f, th |-> 0]
+Seg(th, d, f) == [t |-> "seg", l |-> 0, d |-> d, f |-> f, th |-> th]
 \* compositions as indices into a table (TLC has no recursive data types): node -> [t, l, d, f]
-Nodes == CASE Tree = 1 -> <<[t |-> "fb", l |-> 0, d |-> 2, f |-> 3], Leaf(1), Leaf(2)>>
-           [] Tree = 2 -> <<[t |-> "fb", l |-> 0, d |-> 2, f |-> 5], [t |-> "fb", l |-> 0, d |-> 3, f |-> 4], Leaf(1), Leaf(2), Leaf(3)>>
-           [] Tree = 3 -> <<[t |-> "fb", l |-> 0, d |-> 2, f |-> 3], Leaf(1), [t |-> "fb", l |-> 0, d |-> 4, f |-> 5], Leaf(2), Leaf(3)>>
+\*   4 = seg(32 B; L1, L2)   5 = seg(16 B; L1, seg(64 B; L2, L3))   6 = seg(32 B; L1, fb(L2, L3))   (driver: seg2, seg3, seg_fb)
+\*   7 = seg(24 B; L1, L2) with a first leaf that may lack array members                           (driver: seg_n)
+Nodes == CASE Tree = 1 -> <<Fb(2, 3), Leaf(1), Leaf(2)>>
+           [] Tree = 2 -> <<Fb(2, 5), Fb(3, 4), Leaf(1), Leaf(2), Leaf(3)>>
+           [] Tree = 3 -> <<Fb(2, 3), Leaf(1), Fb(4, 5), Leaf(2), Leaf(3)>>
+           [] Tree = 4 -> <<Seg(4, 2, 3), Leaf(1), Leaf(2)>>
+           [] Tree = 5 -> <<Seg(2, 2, 3), Leaf(1), Seg(8, 4, 5), Leaf(2), Leaf(3)>>
+           [] Tree = 6 -> <<Seg(4, 2, 3), Leaf(1), Fb(4, 5), Leaf(2), Leaf(3)>>
+           [] Tree = 7 -> <<Seg(3, 2, 3), Leaf(1), Leaf(2)>>
 Root == 1
 
 VARIABLES used,   \* used[l]: bytes leaf l currently holds
@@ -44,10 +62,14 @@ Got(l, kind, n, sz) == [ok |-> TRUE, leaf |-> l, kind |-> kind, n |-> n, sz |-> 
 
 \* all leaves are composable in this model; which members a node has
 RECURSIVE Composable(_)
-Composable(c) == IF Nodes[c].t = "leaf" THEN TRUE ELSE Composable(Nodes[c].f)
+Composable(c) == IF Nodes[c].t = "leaf" THEN TRUE ELSE IF Nodes[c].t = "seg" THEN FALSE ELSE Composable(Nodes[c].f)
 HasArrayMember(c) == IF Nodes[c].t = "leaf" THEN HasArray[Nodes[c].l] ELSE TRUE
-HasTryAllocArrayMember(c) == IF Nodes[c].t = "leaf" THEN HasArray[Nodes[c].l] ELSE Composable(Nodes[c].f) /\ FbHasTryAllocArray
-HasTryDeallocArrayMember(c) == IF Nodes[c].t = "leaf" THEN HasArray[Nodes[c].l] ELSE Composable(Nodes[c].f)
+HasTryAllocArrayMember(c) == IF Nodes[c].t = "leaf" THEN HasArray[Nodes[c].l] ELSE Composable(c) /\ FbHasTryAllocArray
+HasTryDeallocArrayMember(c) == IF Nodes[c].t = "leaf" THEN HasArray[Nodes[c].l] ELSE Composable(c)
+IsSeg(c) == Nodes[c].t = "seg"
+SegNode(c, sz) == IF sz <= Nodes[c].th THEN Nodes[c].d ELSE Nodes[c].f                  \* use_allocate_node
+SegArray(c, n, sz) == IF n * sz <= Nodes[c].th THEN Nodes[c].d ELSE Nodes[c].f          \* use_allocate_array
+SegArrayRelease(c, n, sz) == IF SegByTotal THEN SegArray(c, n, sz) ELSE SegNode(c, sz)
 
 Fits(l, bytes) == used[l] + bytes <= Cap[l]
 
@@ -55,16 +77,20 @@ Fits(l, bytes) == used[l] + bytes <= Cap[l]
 RECURSIVE MTryNode(_, _), MTryArray(_, _, _), TTryArray(_, _, _), MNode(_, _), MArray(_, _, _), TArray(_, _, _)
 MTryNode(c, sz) ==
   IF Nodes[c].t = "leaf" THEN (IF Fits(Nodes[c].l, sz) THEN Got(Nodes[c].l, "n", 1, sz) ELSE None)
+  ELSE IF IsSeg(c) THEN None                                            \* no composable members
   ELSE LET r == MTryNode(Nodes[c].d, sz) IN IF r.ok THEN r ELSE MTryNode(Nodes[c].f, sz)
 MTryArray(c, n, sz) ==
   IF Nodes[c].t = "leaf" THEN (IF Fits(Nodes[c].l, n * sz) THEN Got(Nodes[c].l, "a", n, sz) ELSE None)
+  ELSE IF IsSeg(c) THEN None                                            \* no composable members
   ELSE LET r == TTryArray(Nodes[c].d, n, sz) IN IF r.ok THEN r ELSE TTryArray(Nodes[c].f, n, sz)
 TTryArray(c, n, sz) == IF HasTryAllocArrayMember(c) THEN MTryArray(c, n, sz) ELSE MTryNode(c, n * sz)
 MNode(c, sz) ==
   IF Nodes[c].t = "leaf" THEN (IF Fits(Nodes[c].l, sz) THEN Got(Nodes[c].l, "n", 1, sz) ELSE None)   \* None = throws
+  ELSE IF IsSeg(c) THEN MNode(SegNode(c, sz), sz)
   ELSE LET r == MTryNode(Nodes[c].d, sz) IN IF r.ok THEN r ELSE MNode(Nodes[c].f, sz)
 MArray(c, n, sz) ==
   IF Nodes[c].t = "leaf" THEN (IF Fits(Nodes[c].l, n * sz) THEN Got(Nodes[c].l, "a", n, sz) ELSE None)
+  ELSE IF IsSeg(c) THEN TArray(SegArray(c, n, sz), n, sz)
   ELSE LET r == TTryArray(Nodes[c].d, n, sz) IN IF r.ok THEN r ELSE TArray(Nodes[c].f, n, sz)
 TArray(c, n, sz) == IF HasArrayMember(c) THEN MArray(c, n, sz) ELSE MNode(c, n * sz)
 
@@ -74,16 +100,20 @@ NotFound == [found |-> FALSE, leaf |-> 0, kind |-> "n", n |-> 0, sz |-> 0]
 RECURSIVE MTryDNode(_, _, _), MTryDArray(_, _, _, _), TTryDArray(_, _, _, _), MDNode(_, _, _), MDArray(_, _, _, _), TDArray(_, _, _, _)
 MTryDNode(c, a, sz) ==
   IF Nodes[c].t = "leaf" THEN (IF a.leaf = Nodes[c].l THEN Asked(a.leaf, "n", 1, sz) ELSE NotFound)
+  ELSE IF IsSeg(c) THEN NotFound                                            \* no composable members
   ELSE LET r == MTryDNode(Nodes[c].d, a, sz) IN IF r.found THEN r ELSE MTryDNode(Nodes[c].f, a, sz)
 MTryDArray(c, a, n, sz) ==
   IF Nodes[c].t = "leaf" THEN (IF a.leaf = Nodes[c].l THEN Asked(a.leaf, "a", n, sz) ELSE NotFound)
+  ELSE IF IsSeg(c) THEN NotFound                                            \* no composable members
   ELSE LET r == TTryDArray(Nodes[c].d, a, n, sz) IN IF r.found THEN r ELSE TTryDArray(Nodes[c].f, a, n, sz)
 TTryDArray(c, a, n, sz) == IF HasTryDeallocArrayMember(c) THEN MTryDArray(c, a, n, sz) ELSE MTryDNode(c, a, n * sz)
 MDNode(c, a, sz) ==
   IF Nodes[c].t = "leaf" THEN Asked(Nodes[c].l, "n", 1, sz)          \* a leaf releases whatever it is given
+  ELSE IF IsSeg(c) THEN MDNode(SegNode(c, sz), a, sz)
   ELSE LET r == MTryDNode(Nodes[c].d, a, sz) IN IF r.found THEN r ELSE MDNode(Nodes[c].f, a, sz)
 MDArray(c, a, n, sz) ==
   IF Nodes[c].t = "leaf" THEN Asked(Nodes[c].l, "a", n, sz)
+  ELSE IF IsSeg(c) THEN TDArray(SegArrayRelease(c, n, sz), a, n, sz)
   ELSE LET r == TTryDArray(Nodes[c].d, a, n, sz) IN IF r.found THEN r ELSE TDArray(Nodes[c].f, a, n, sz)
 TDArray(c, a, n, sz) == IF HasArrayMember(c) THEN MDArray(c, a, n, sz) ELSE MDNode(c, a, n * sz)
 
@@ -107,6 +137,13 @@ Spec == Init /\ [][Next]_vars
 \* C08 / C09
 ReleasedAsAllocated == bad = <<>>
 UsedWithinCapacity == \A l \in Leaves : used[l] <= Cap[l]
+\* segregators: where an allocation lives is a function of its request alone
+RECURSIVE RouteOf(_, _)
+RouteOf(c, a) == IF Nodes[c].t = "seg" THEN RouteOf(IF a.rk = "n" THEN SegNode(c, a.rsz) ELSE SegArray(c, a.rn, a.rsz), a) ELSE c
+RECURSIVE LeavesUnder(_)
+LeavesUnder(c) == IF Nodes[c].t = "leaf" THEN {Nodes[c].l} ELSE LeavesUnder(Nodes[c].d) \cup LeavesUnder(Nodes[c].f)
+RoutedByThreshold == \A a \in live : a.leaf \in LeavesUnder(RouteOf(Root, a))
+NotWitnessSegBothSides == ~(\E a, b \in live : a.leaf = 1 /\ b.leaf # 1 /\ a.rk = "a" /\ b.rk = "a" /\ a.rsz = b.rsz)
 NotWitnessThirdLeaf == ~(\E a \in live : a.leaf = 3 /\ a.kind = "a")
 View == <<used, {[leaf |-> a.leaf, kind |-> a.kind, n |-> a.n, sz |-> a.sz, rk |-> a.rk, rn |-> a.rn, rsz |-> a.rsz] : a \in live}, bad # <<>>>>
 =============================================================================
